@@ -111,29 +111,6 @@ deviate stream (`d p` is the `p`-th deviate the generator hands out, whoever ask
 section shared
 variable {β : Type}
 
-/-- the coordinator on a generator that a third consumer also draws from -/
-structure Shared (β : Type) where
-  c : Coord β
-  gotA : List β
-  gotB : List β
-  pos : Nat
-  starts : List Nat
-
-def Shared.init : Shared β := ⟨⟨[], [], []⟩, [], [], 0, []⟩
-
-def sharedStep (d : Nat → β) (joint : β → β → β × β) (s : Shared β) : Option Bool → Shared β
-  | none => { s with pos := s.pos + 1 }
-  | some isB =>
-    let r := s.c.request isB (joint (d s.pos) (d (s.pos + 1)))
-    { c := r.1
-      gotA := (match r.2.1 with | some x => if isB then s.gotA else s.gotA ++ [x] | none => s.gotA)
-      gotB := (match r.2.1 with | some x => if isB then s.gotB ++ [x] else s.gotB | none => s.gotB)
-      pos := if r.2.2 then s.pos + 2 else s.pos
-      starts := if r.2.2 then s.starts ++ [s.pos] else s.starts }
-
-def sharedRun (d : Nat → β) (joint : β → β → β × β) (ops : List (Option Bool)) : Shared β :=
-  ops.foldl (sharedStep d joint) Shared.init
-
 def SInv (d : Nat → β) (joint : β → β → β × β) (s : Shared β) : Prop :=
   s.c.draws = s.starts.map (fun p => joint (d p) (d (p + 1))) ∧
   s.gotA ++ s.c.qA = s.c.draws.map Prod.fst ∧
